@@ -175,12 +175,16 @@ pub fn append_rule(rule: Arc<Rule>) -> bool {
             .unwrap_or(&mut placeholder),
     );
     drop(breaker_rules);
-    if !new_tcs_of_res.is_empty() {
-        breaker_map
-            .entry(rule.resource.clone())
-            .or_default()
-            .push(Arc::clone(&new_tcs_of_res[0]));
-    }
+    // the rebuilt list carries over the breakers of the rules that were already active (they
+    // were taken out of the old list) plus the new one: it replaces the old list, which is
+    // dropped after the lock has been released (see `load_rules`)
+    let old_res_cbs = if new_tcs_of_res.is_empty() {
+        None
+    } else {
+        breaker_map.insert(rule.resource.clone(), new_tcs_of_res)
+    };
+    drop(breaker_map);
+    drop(old_res_cbs);
     true
 }
 
